@@ -436,6 +436,216 @@ def replay_cron(ctx, rp):
     raise ToolError("could not locate the recorded history of this replay file")
 
 
+# ---------------------------------------------------------------------------------------------
+# Timezone reader (C18, C19)
+# ---------------------------------------------------------------------------------------------
+CORPUS = os.path.join(VERIF, "corpus", "tzif")
+
+
+def unshare_ok():
+    import subprocess
+    try:
+        p = subprocess.run(["unshare", "-m", "sh", "-c", "mount --bind /etc/hostname /etc/hostname"], stdout=subprocess.PIPE,
+                           stderr=subprocess.PIPE, timeout=20)
+        return p.returncode == 0
+    except Exception:
+        return False
+
+
+def local_resolve_with(path):
+    """Offset::Local.resolve() with `path` bind-mounted over /etc/localtime in a private mount namespace."""
+    import subprocess
+    cmd = "mount --bind '%s' /etc/localtime && '%s' local-resolve" % (path, harness_bin())
+    p = subprocess.run(["unshare", "-m", "sh", "-c", cmd], stdout=subprocess.PIPE, stderr=subprocess.PIPE, text=True, timeout=60)
+    lines = [l for l in p.stdout.splitlines() if l.startswith("{")]
+    if not lines:
+        return {"k": "crash", "rc": p.returncode, "stderr": p.stderr[-300:]}
+    return json.loads(lines[-1])
+
+
+@check("C18")
+def c18(ctx):
+    import subprocess
+    build_harness()
+    # specification sanity: the calendar the rule days are computed with
+    model_check(ctx, "MC_Civil", "MC_Civil_full" if ctx.thorough else "MC_Civil_quick", workers=4)
+    # channel A: synthesized files
+    cases = gen_cases(ctx, "Gen_TZ", "C18", 8, cfg="Gen_TZ")
+    mism = cases + ".mism"
+    s = harness_json(["replay", "--cases", cases, "--out", mism])
+    nl = 0
+    for c in read_ndjson(cases):
+        nl += len(c["ts"])
+        ctx.distinct.add(("synth", c["file"]["ver"], "".join(c["file"]["footer"]), len(c["file"]["trans"]), len(c["file"]["types"])))
+    ctx.evaluations += nl
+    for smp in s.get("samples", [])[:1]:
+        ctx.sample({"case_file": smp["case"]["file"], "first_instants": smp["case"]["ts"][:4],
+                    "expected": smp["case"]["exp"][0]["offs"][:4], "observed": smp["observed"].get("offs", [])[:4]})
+    for m in read_ndjson(mism):
+        c, o = m["case"], m["observed"]
+        w = {"case": c, "observed": o}
+        if o.get("k") == "ok":
+            exp = c["exp"][0]["offs"]
+            bad = [i for i, (e, b) in enumerate(zip(exp, o["offs"])) if e != "any" and e != b]
+            w = {"case": c, "first_bad": {"instant": c["ts"][bad[0]], "expected": exp[bad[0]], "observed": o["offs"][bad[0]]} if bad else None,
+                 "bad_instants": len(bad)}
+        ctx.violations.append({"clause": "C18.lookup_synthesized" if o.get("k") == "ok" else "C18.rejects_wellformed",
+                               "class": "".join(c["file"]["footer"])[:24], "witness": w})
+    # channel B: real zone files (fat and slim re-encodings) with CPython zoneinfo as second opinion
+    from concurrent.futures import ThreadPoolExecutor
+    shards = 8
+    per = 1500 if ctx.thorough else 250
+    traces = [ctx.path("tz-%d.ndjson" % k) for k in range(shards)]
+
+    def rec(k):
+        raw = traces[k] + ".raw"
+        harness_json(["record-tz", "--dir", CORPUS, "--out", raw, "--n", per, "--shard", k, "--nshards", shards],
+                     env_extra={"VERIF_SEED": ctx.seed * 31 + k})
+        p = subprocess.run([sys.executable, os.path.join(VERIF, "lib", "zi_opinion.py"), CORPUS, raw, traces[k]],
+                           stdout=subprocess.PIPE, stderr=subprocess.PIPE, text=True)
+        if p.returncode != 0:
+            raise ToolError("zoneinfo second opinion failed: " + p.stderr[-400:])
+    with ThreadPoolExecutor(max_workers=8) as ex:
+        list(ex.map(rec, range(shards)))
+    total, bad = parallel_validate(ctx, "Trace_TZ", traces, jobs=8, timeout=3000)
+    ctx.evaluations += total
+    nzones = 0
+    for t in traces:
+        for r in read_ndjson(t):
+            nzones += 1
+            ctx.distinct.add(("zone", r["zone"], r["enc"]))
+            if nzones == 3:
+                ctx.sample({"zone": r["zone"], "enc": r["enc"], "transitions": len(r["file"]["trans"]), "footer": r["file"]["footer_text"],
+                            "instants": r["ts"][:3], "resolved": r["res"].get("offs", [])[:3]})
+    for b in bad:
+        if b["zi"]:
+            raise ToolError("CPython zoneinfo disagrees with the specification / the harness's TZif reader on %s (%s): %s"
+                            % (b["zone"], b["enc"], json.dumps(b["first"])))
+        ctx.violations.append({"clause": "C18.lookup_zonefile", "class": b["zone"],
+                               "witness": {"zone": b["zone"], "enc": b["enc"], "bad_instants": len(b["impl"]), "first": b["first"]}})
+    # Offset::Local: the same lookup applied to /etc/localtime and the current time
+    if unshare_ok():
+        n = 0
+        recs = []
+        for z in sorted(os.listdir(CORPUS))[:: (3 if ctx.thorough else 12)]:
+            path = os.path.join(CORPUS, z)
+            r = local_resolve_with(path)
+            ab = json.loads(run_harness(["tz-abstract", "--file", path]).strip().splitlines()[-1])
+            pair = lambda ts: [ts // 86400 + 719162, ts % 86400]
+            if r.get("k") != "ok":
+                ctx.violations.append({"clause": "C18.local_resolve", "class": z, "witness": {"zone": z, "outcome": r}})
+                continue
+            recs.append({"i": n, "zone": z, "enc": "local", "file": ab, "ts": [pair(r["t0"]), pair(r["t1"])],
+                         "unix": [r["t0"], r["t1"]], "res": {"k": "ok", "offs": [r["off"], r["off"]]}, "either": True})
+            n += 1
+        t = ctx.path("tz-local.ndjson")
+        write_ndjson(t, recs)
+        cnt, bad = validate_trace(ctx, "Trace_TZ", t)
+        ctx.evaluations += n
+        for b in bad:
+            ctx.violations.append({"clause": "C18.local_resolve", "class": b["zone"], "witness": b})
+        ctx.extra["offset_local_files_checked"] = n
+    else:
+        ctx.notes.append("unshare -m unavailable: Offset::Local glue not exercised")
+        ctx.extra["offset_local_files_checked"] = 0
+    return finish(ctx, rule="channel A: TLC synthesizes well-formed TZif files (versions 1-3 x 5 transition tables x 4 type sets x 18 "
+                  "IANA-shaped footers of every rule kind, both hemispheres, footer made consistent with the last transition) and the "
+                  "instants that matter (every transition -1/0/+1 s, every rule switch +-1 s in 7 years incl. leap and century "
+                  "years) with the offset TZif!Lookup prescribes; the harness serialises each file and resolves through the real "
+                  "reader. Channel B: 139 vendored zone files, fat and slim (cut at 2007) encodings, each transition +-1 s and random "
+                  "instants 1900-2500, judged by Trace_TZ, with CPython zoneinfo as second opinion on spec and harness reader. "
+                  "Offset::Local exercised under unshare -m with zone files bind-mounted over /etc/localtime. "
+                  "distinct_nontrivial = distinct synthesized (version, footer, table, types) files plus distinct (zone, encoding).",
+                  trusted=["verification hook astrolabe::verif::tzif_offsets", "harness TZif writer/reader (cross-checked by zoneinfo every run)",
+                           "CPython zoneinfo as second opinion"])
+
+
+@check("C19")
+def c19(ctx):
+    build_harness()
+    cases = gen_cases(ctx, "Gen_TZHostile", "C19", 8, cfg="Gen_TZHostile")
+    mism = cases + ".mism"
+    s = harness_json(["replay", "--cases", cases, "--out", mism])
+    ctx.evaluations += s["cases"]
+    for c in read_ndjson(cases):
+        m = c["mut"]
+        ctx.distinct.add((c["seed"], m["kind"], m.get("field"), m.get("val"), m.get("at"), "".join(m.get("text", []))))
+    for smp in s.get("samples", [])[:3]:
+        ctx.sample(smp)
+    for m in read_ndjson(mism):
+        mu = m["case"]["mut"]
+        ctx.violations.append({"clause": "C19.%s" % m["observed"].get("k"), "class": mu["kind"],
+                               "witness": {"case": m["case"], "observed": m["observed"],
+                                           "footer_text": "".join(mu.get("text", []))}})
+    # channel B: random structure-aware mutations of the seeds and of real zone files
+    from concurrent.futures import ThreadPoolExecutor
+    shards = 8
+    per = 60000 if ctx.thorough else 8000
+    outs = [ctx.path("fuzz-%d.ndjson" % k) for k in range(shards)]
+    seeds = [ctx.seed * 977 + k for k in range(shards)]
+
+    def fz(k):
+        return harness_json(["fuzz-tz", "--out", outs[k], "--n", per, "--dir", CORPUS], env_extra={"VERIF_SEED": seeds[k]})
+    with ThreadPoolExecutor(max_workers=8) as ex:
+        res = list(ex.map(fz, range(shards)))
+    classes = {}
+    for r in res:
+        ctx.evaluations += r["cases"]
+        for k, v in r["classes"].items():
+            classes[k] = classes.get(k, 0) + v
+    ctx.extra["random_mutation_outcomes"] = classes
+    for k, o in enumerate(outs):
+        for f in read_ndjson(o):
+            ctx.violations.append({"clause": "C19.%s" % f["outcome"].get("k"), "class": "random-mutation",
+                                   "witness": {"fuzz_seed": seeds[k], "i": f["i"], "n": per, "outcome": f["outcome"], "bytes": f["bytes"]}})
+    # damaged /etc/localtime
+    if unshare_ok():
+        d = ctx.path("hostile")
+        os.makedirs(d, exist_ok=True)
+        run_harness(["tz-hostile-bytes", "--dir", d])
+        n = 0
+        for f in sorted(os.listdir(d)):
+            r = local_resolve_with(os.path.join(d, f))
+            n += 1
+            if r.get("k") != "ok":
+                ctx.violations.append({"clause": "C19.local_resolve", "class": f, "witness": {"file": f, "outcome": r}})
+        ctx.evaluations += n
+        ctx.extra["damaged_localtime_files"] = n
+    else:
+        ctx.extra["damaged_localtime_files"] = 0
+    return finish(ctx, level="fault_enumeration",
+                  rule="the TZif byte layout of Gen_TZHostile is the generator: every header count of either block x 8 value "
+                  "classes, 22 truncation points, version bytes, transition type indices, magic damage, and footer strings from a "
+                  "mutated POSIX-TZ grammar (11 heads x 33 rules x 8 (33 thorough) rules), applied to 8 seed files; each resulting "
+                  "byte string is parsed and, if accepted, resolved at 42 timestamps incl. both ends of the DateTime range; the only "
+                  "allowed outcomes are 'error' or 'offsets for all' within 1 s. Plus random 1-3-fold mutations of the seeds and of "
+                  "24 real zone files, and damaged /etc/localtime files under unshare -m. distinct_nontrivial = distinct mutation "
+                  "descriptors.",
+                  trusted=["verification hook astrolabe::verif::tzif_offsets", "harness mutation engine"])
+
+
+def replay_tz(ctx, rp):
+    w = rp["witness"]
+    build_harness()
+    if "case" in w:
+        cases = ctx.path("case.ndjson")
+        write_ndjson(cases, [w["case"]])
+        mism = cases + ".mism"
+        harness_json(["replay", "--cases", cases, "--out", mism])
+        for m in read_ndjson(mism):
+            ctx.violations.append({"clause": rp.get("clause", ctx.pid), "class": "replay", "witness": m})
+        return
+    if "bytes" in w:
+        # re-run the recorded random mutation stream up to the failing case
+        out = ctx.path("fz.ndjson")
+        harness_json(["fuzz-tz", "--out", out, "--n", w["n"], "--dir", CORPUS], env_extra={"VERIF_SEED": w["fuzz_seed"]})
+        for f in read_ndjson(out):
+            if f["i"] == w["i"]:
+                ctx.violations.append({"clause": rp.get("clause", ctx.pid), "class": "replay", "witness": f})
+        return
+    raise ToolError("this witness is re-checked by re-running the property's quick command")
+
+
 def replay_civil(ctx, rp):
     w = rp["witness"]
     table = civil_common(ctx)
@@ -466,6 +676,8 @@ def replay_civil(ctx, rp):
 REPLAYERS = {"C01": replay_civil, "C02": replay_civil}
 for _pid in OPS:
     REPLAYERS[_pid] = replay_ops
+REPLAYERS["C18"] = replay_tz
+REPLAYERS["C19"] = replay_tz
 REPLAYERS["C16"] = replay_cron
 REPLAYERS["C17"] = replay_cron
 
